@@ -1,14 +1,186 @@
 import MirGen.ChordFns
 import MirProofs.Lemmas.PyScalar
+import MirProofs.Lemmas.PyChord
 import MirProofs.Lemmas.Chord.Encode
+import MirProofs.Props.C10_Regex
+import MirProofs.Props.C10_Gen
+set_option linter.unusedSimpArgs false
 namespace Mir.C10.GenFns
-open Mir Mir.Chord
+open Mir Mir.Chord Mir.PyChord
 
 theorem reduce_extended_quality_eq_model (q : List Char) :
     Mir.Gen.chord.reduce_extended_quality q = .ok (reduceExtendedQuality q) := by
-  unfold Mir.Gen.chord.reduce_extended_quality reduceExtendedQuality Mir.PyChord.dictGetD
-  cases h : List.lookup q MirGen.Tables.extendedQualityRedux with
-  | none => rfl
-  | some v => rfl
+  unfold Mir.Gen.chord.reduce_extended_quality reduceExtendedQuality
+  simp only [Mir.PyChord.dictGetD, Mir.PyS.dictHas, Mir.PyS.dictIndex]
+  cases List.lookup q MirGen.Tables.extendedQualityRedux <;> rfl
+
+theorem accepts_eq_reMatch (m : Mir.Rx.Method) (s : List Char) :
+    Mir.Rx.accepts m Mir.Gen.chordRe s = reMatch s := by
+  cases m
+  · exact Mir.C10.Regex.regex_iff_grammar s
+  · exact Mir.C10.Regex.fullmatch_iff_grammar s
+
+theorem validate_chord_label_eq_model (s : List Char) :
+    Mir.Gen.chord.validate_chord_label s = pyValidate s := by
+  unfold Mir.Gen.chord.validate_chord_label pyValidate
+  simp only [accepts_eq_reMatch]
+  cases reMatch s <;> rfl
+
+theorem quality_to_bitmap_eq_model (q : List Char) :
+    Mir.Gen.chord.quality_to_bitmap q = qualityToBitmap q := by
+  unfold Mir.Gen.chord.quality_to_bitmap qualityToBitmap
+  simp only [Mir.PyChord.npArray, Mir.PyS.dictHas, Mir.PyS.dictIndex]
+  rcases Option.eq_none_or_eq_some (List.lookup q MirGen.Tables.qualities) with h | ⟨v, h⟩ <;> simp only [h] <;> rfl
+
+/-- the part of `scale_degree_to_bitmap` after the `*` prefix has been read -/
+theorem bitmap_tail (t : List Char) (m : Bool) (n : Nat) (hn : 0 < n) (sign : Int) (k : Int → Py Vec)
+    (hk : ∀ idx, k idx =
+      if idx < (n : Int) ∨ m = true then .ok ((List.replicate n (0 : Int)).set (idx % (n : Int)).toNat sign)
+      else .ok (List.replicate n 0)) :
+    (do let i ← scaleDegreeToSemitone t; k i) =
+      match scaleDegreeToSemitone t with
+      | .error e => .error e
+      | .ok idx =>
+        if idx < (n : Int) ∨ m = true then .ok ((List.replicate n (0 : Int)).set (idx % (n : Int)).toNat sign)
+        else .ok (List.replicate n 0) := by
+  cases scaleDegreeToSemitone t with
+  | error e => rfl
+  | ok idx => exact hk idx
+
+theorem scale_degree_to_bitmap_eq_model (s : List Char) (m : Bool) (n : Nat) (hn : 0 < n) :
+    Mir.Gen.chord.scale_degree_to_bitmap s m (n : Int) = scaleDegreeToBitmap s m n := by
+  have hpos : (0 : Int) < (n : Int) := by omega
+  have key : ∀ (sign idx : Int),
+      (if (decide (idx < (n : Int)) || m) = true then do
+          let i ← pyMod idx (n : Int)
+          let em ← listSet (listRepeat (0 : Int) (n : Int)) i sign
+          pure (npArray em)
+        else pure (npArray (listRepeat (0 : Int) (n : Int))) : Py Vec) =
+      if idx < (n : Int) ∨ m = true then .ok ((List.replicate n (0 : Int)).set (idx % (n : Int)).toNat sign)
+      else .ok (List.replicate n 0) := by
+    intro sign idx
+    have h0 := Int.emod_nonneg idx (by omega : (n : Int) ≠ 0)
+    have h1 := Int.emod_lt_of_pos idx hpos
+    have hset : listSet (List.replicate n (0 : Int)) (idx % (n : Int)) sign =
+        .ok ((List.replicate n (0 : Int)).set (idx % (n : Int)).toNat sign) :=
+      listSet_of_range sign h0 (by simpa using h1)
+    simp only [pyMod_of_pos idx hpos, listRepeat_nat, npArray, Bool.or_eq_true, decide_eq_true_eq]
+    split
+    · simp only [bind, Except.bind, hset]; rfl
+    · rfl
+  unfold Mir.Gen.chord.scale_degree_to_bitmap scaleDegreeToBitmap degreeSign
+  simp only [Mir.PyS.startsWith_single, Mir.PyS.stripChar, Mir.C10.Gen.scale_degree_to_semitone_eq, decide_eq_true_eq]
+  by_cases h : s.head? = some '*'
+  · simp only [h, if_true]
+    exact bitmap_tail _ m n hn (-1) _ (fun idx => key (-1) idx)
+  · simp only [h, if_false]
+    exact bitmap_tail _ m n hn 1 _ (fun idx => key 1 idx)
+
+/-- `validate_chord_label(x); return x` against the hand-written `match`, up to how the string was assembled -/
+theorem validate_then_return (x y : List Char) (h : x = y) :
+    (do let _ ← pyValidate x; pure x : Py (List Char)) =
+      match pyValidate y with
+      | .error e => .error e
+      | .ok _ => .ok y := by
+  subst h; cases pyValidate x <;> rfl
+
+theorem join_eq_model (root q : List Char) (ext : Option (List (List Char))) (bass : List Char) :
+    Mir.Gen.chord.join root q ext bass = pyJoin root q ext bass := by
+  unfold Mir.Gen.chord.join pyJoin joinRaw
+  have hbne : (bass != ['1']) = !decide (bass = ['1']) := by
+    by_cases h : bass = ['1'] <;> simp [h]
+  simp only [validate_chord_label_eq_model, joinSep_eq, hbne]
+  cases ext with
+  | none =>
+    cases q.isEmpty <;> cases bass.isEmpty <;> cases decide (bass = ['1']) <;>
+      simp only [truthyOpt, List.isEmpty_nil, Bool.not_true, Bool.not_false,
+        Bool.or_false, Bool.false_or, Bool.true_or, Bool.or_true, Bool.and_true, Bool.true_and, Bool.and_false,
+        Bool.false_and, if_true, if_false, Option.getD_none, Bool.false_eq_true] <;>
+      refine validate_then_return _ _ ?_ <;> simp
+  | some l =>
+    simp only [truthyOpt, Option.getD_some, Mir.PyS.unwrap_some]
+    rcases Bool.eq_false_or_eq_true q.isEmpty with h1 | h1 <;>
+    rcases Bool.eq_false_or_eq_true bass.isEmpty with h2 | h2 <;>
+    rcases Bool.eq_false_or_eq_true (decide (bass = ['1'])) with h3 | h3 <;>
+    rcases Bool.eq_false_or_eq_true l.isEmpty with h4 | h4 <;>
+      simp only [h1, h2, h3, h4, Bool.not_true, Bool.not_false,
+        Bool.or_false, Bool.false_or, Bool.true_or, Bool.or_true, Bool.and_true, Bool.true_and, Bool.and_false,
+        Bool.false_and, if_true, if_false, Bool.false_eq_true, Mir.PyS.unwrap_some, pure_bind, bind_pure] <;>
+      refine validate_then_return _ _ ?_ <;> simp
+
+theorem ok_bind {α β : Type} (a : α) (f : α → Py β) : (Except.ok a >>= f) = f a := rfl
+theorem error_bind {α β : Type} (e : PyErr) (f : α → Py β) : ((Except.error e : Py α) >>= f) = Except.error e := rfl
+
+theorem bind_eq_match {α β : Type} (x : Py α) (f : α → Py β) :
+    (x >>= f) = match x with | .error e => .error e | .ok v => f v := by cases x <;> rfl
+
+/-- case analysis of everything both sides branch on, until the two sides coincide -/
+macro "py_cases" : tactic =>
+  `(tactic| repeat' (first | rfl | (split <;> try simp_all only [ok_bind, error_bind, Bool.false_eq_true, if_true, if_false,
+      Bool.not_true, Bool.not_false, Bool.and_true, Bool.true_and, Bool.and_false, Bool.false_and, List.isEmpty_nil,
+      Bool.not_eq_true', Bool.not_eq_true, not_true_eq_false, not_false_eq_true, reduceCtorEq])))
+
+theorem split_eq_model_flag (s : List Char) (r : Bool) (hr : r = false ∨ r = true) :
+    Mir.Gen.chord.split s r = pySplit s r := by
+  unfold Mir.Gen.chord.split pySplit
+  simp only [validate_chord_label_eq_model, reduce_extended_quality_eq_model, hasChar_eq, splitOn_eq, stripWs_eq,
+    unpack2_eq, setOfList_eq, setUpdate_eq, lower_eq, Mir.PyS.stripChar]
+  rcases pyValidate_total s with hv | hv <;> simp only [hv, ok_bind, error_bind]
+  by_cases hN : s = MirGen.Tables.noChord
+  · simp only [hN, decide_true, if_true]; rfl
+  simp only [hN, decide_false, if_false, Bool.false_eq_true]
+  unfold splitCore splitBass splitDegrees splitQuality applyReduce
+  rcases hr with hr | hr <;> subst hr <;> simp only [bind_eq_match, Bool.false_eq_true, if_true, if_false] <;> py_cases
+
+theorem split_eq_model (s : List Char) (r : Bool) : Mir.Gen.chord.split s r = pySplit s r :=
+  split_eq_model_flag s r (by cases r <;> simp)
+
+theorem except_cases {α : Type} (x : Py α) : (∃ e, x = .error e) ∨ (∃ v, x = .ok v) := by
+  cases x with
+  | error e => exact Or.inl ⟨e, rfl⟩
+  | ok v => exact Or.inr ⟨v, rfl⟩
+
+/-- the translated `for scale_degree in scale_degrees: semitone_bitmap += scale_degree_to_bitmap(...)` is `addDegrees` -/
+theorem encode_loop_eq (r : Bool) (ds : List (List Char)) (bm : List Int) (h : bm.length = 12) :
+    Mir.Gen.chord.encode_loop1 r bm ds = addDegrees r bm ds := by
+  induction ds generalizing bm with
+  | nil => rfl
+  | cons d ds ih =>
+    unfold Mir.Gen.chord.encode_loop1 addDegrees
+    have h12 : (MirGen.Tables.bitmapLength : Int) = ((12 : Nat) : Int) := rfl
+    rw [h12, scale_degree_to_bitmap_eq_model d r 12 (by omega)]
+    rcases scaleDegreeToBitmap_total d r with ⟨e, he, hl⟩ | he
+    · have he' : scaleDegreeToBitmap d r 12 = .ok e := he
+      simp only [he, he', ok_bind, vecIAdd_same (h.trans hl.symm)]
+      exact ih _ (addBitmap_length h hl)
+    · have he' : scaleDegreeToBitmap d r 12 = .error .invalidChord := he
+      simp only [he, he', error_bind]
+
+theorem encode_eq_model (s : List Char) (r sb : Bool) : Mir.Gen.chord.encode s r sb = pyEncode s r sb := by
+  unfold Mir.Gen.chord.encode pyEncode
+  simp only [split_eq_model, Mir.C10.Gen.pitch_class_to_semitone_eq, Mir.C10.Gen.scale_degree_to_semitone_eq,
+    quality_to_bitmap_eq_model, astype_gt_zero, decide_eq_true_eq]
+  by_cases hN : s = MirGen.Tables.noChord
+  · simp only [hN, if_true]; rfl
+  by_cases hX : s = MirGen.Tables.xChord
+  · simp only [hN, hX, if_true, if_false]; rfl
+  simp only [hN, hX, if_false]
+  rcases except_cases (pySplit s r) with ⟨e, h0⟩ | ⟨⟨root, q, degs, bass⟩, h0⟩ <;> simp only [h0, ok_bind, error_bind]
+  unfold encodeParts
+  rcases except_cases (pitchClassToSemitone root) with ⟨e, h1⟩ | ⟨rn, h1⟩ <;> simp only [h1, ok_bind, error_bind]
+  rcases except_cases (scaleDegreeToSemitone bass) with ⟨e, h2⟩ | ⟨b, h2⟩ <;> simp only [h2, ok_bind, error_bind]
+  rcases qualityToBitmap_total q with ⟨bm, h3, hq⟩ | h3 <;> simp only [h3, ok_bind, error_bind]
+  have hset : listSet bm 0 1 = .ok (bm.set 0 1) := listSet_of_range 1 (by omega) (by omega)
+  simp only [hset, ok_bind, encode_loop_eq r degs (bm.set 0 1) (by simpa using hq)]
+  rcases addDegrees_total r (bm.set 0 1) degs (by simpa using hq) with ⟨bm', h4, hl⟩ | h4 <;>
+    simp only [h4, ok_bind, error_bind]
+  have hr := emod12_range b
+  have hlen : ((threshold bm').length : Int) = 12 := by rw [threshold_length, hl]; rfl
+  have hget : listGet (threshold bm') (b % 12) = .ok ((threshold bm').getD (b % 12).toNat 0) :=
+    listGet_of_range hr.1 (by omega)
+  have hset2 : listSet (threshold bm') (b % 12) 1 = .ok ((threshold bm').set (b % 12).toNat 1) :=
+    listSet_of_range 1 hr.1 (by omega)
+  simp only [hget, hset2, ok_bind]
+  by_cases hz : (threshold bm').getD (b % 12).toNat 0 = 0 <;> cases sb <;> simp [hz, pure, Except.pure]
 
 end Mir.C10.GenFns
